@@ -970,6 +970,32 @@ gproof! { fn c14_arc_same_allocation_licence() {
     core::mem::forget(a2);
 } }
 
+// @h props=C14,C01,C04 fuc=Arc::max,Arc::min,Arc::cmp note="provided Ord::max / Ord::min (by value): the handle returned holds the greater / smaller VALUE, the other handle is released exactly once"
+gproof! { fn c14_arc_ord_max_min_by_value() {
+    let (n, m) = (any_count(), any_count());
+    kani::assume(n > 1 && m > 1);
+    let a = mk(Ip(kani::any()), n);
+    let b = mk(Ip(kani::any()), m);
+    let (da, db, ca, cb) = (data(&a), data(&b), cw(&a), cw(&b));
+    vrt::ip_setup(da, db);
+    unsafe { kani::assume(vrt::IP_ORD != 0); }
+    let want_max = if vrt::ip_ord() == Some(core::cmp::Ordering::Greater) { da } else { db };
+    let use_min: bool = kani::any();
+    let r = if use_min { Ord::min(a, b) } else { Ord::max(a, b) };
+    let rd_ = data(&r);
+    if vrt::ip_ord() == Some(core::cmp::Ordering::Equal) {
+        assert!(rd_ == da || rd_ == db);
+    } else if use_min {
+        assert!(rd_ == if want_max == da { db } else { da });
+    } else {
+        assert!(rd_ == want_max);
+    }
+    // the handle not returned was released exactly once, the returned one kept its reference
+    assert!(rd(ca) + rd(cb) == n + m - 1 && rd(if rd_ == da { ca } else { cb }) == if rd_ == da { n } else { m });
+    assert!(!unsafe { vrt::IP_FOREIGN } && vrt::gd(0));
+    core::mem::forget(r);
+} }
+
 // @h props=C14,C04 fuc=Arc::hash
 gproof! { fn c14_arc_hash_delegates() {
     use core::hash::Hash;
@@ -1277,6 +1303,20 @@ pub(crate) mod serde_h {
         match (r, outcome) {
             (Ok(()), Ok(x)) => { assert!(place.0 == x && cnt(&place) == 1 && vrt::glive(1) && vrt::g_ok()); }
             (Err(e), Err(f)) => { assert!(e == f && cnt(&place) == 1 && place.0 == v0 && vrt::glive(1)); }
+            _ => { assert!(false, "deserialize_in_place outcome does not follow the value's own deserializer"); }
+        }
+        core::mem::forget(place);
+    } }
+
+    // @h props=C17,C03 mod=serde_h fuc=UniqueArc::deserialize_in_place note="serde's in-place entry point on a UniqueArc: afterwards still the sole owner of the new value, nothing leaked; Err leaves the place as it was"
+    gproof! { fn c17_unique_deserialize_in_place() {
+        let v0: u32 = kani::any();
+        let mut place = UniqueArc::new(Dp(v0));
+        let outcome = any_de();
+        let r: Result<(), E> = Deserialize::deserialize_in_place(De { outcome }, &mut place);
+        match (r, outcome) {
+            (Ok(()), Ok(x)) => { assert!((*place).0 == x && cnt(crate::unique_arc::kani_h::inner_arc(&place)) == 1 && vrt::glive(1) && vrt::g_ok()); }
+            (Err(e), Err(f)) => { assert!(e == f && (*place).0 == v0 && cnt(crate::unique_arc::kani_h::inner_arc(&place)) == 1 && vrt::glive(1)); }
             _ => { assert!(false, "deserialize_in_place outcome does not follow the value's own deserializer"); }
         }
         core::mem::forget(place);
